@@ -2,6 +2,7 @@
    Statements only; every proof is [exact lemma].  Tables [interops], [native_methods], [native_methods_by_hf] are
    GENERATED from the Go source on every run (coq/gen); the classification lists are in Auth/Classify.v. *)
 From NG Require Import Common.Tactics Auth.TableTypes Auth.Classify Auth.Flags Auth.FlagsProofs Auth.Permission Auth.PermissionProofs.
+From NG Require Import Auth.PermStore Auth.PermStoreProofs.
 From NG Require Import gen.Interops gen.NativeMethods.
 Open Scope N_scope.
 
@@ -151,7 +152,42 @@ Theorem C16_can_call_unfixed_refuted : ~ C16_can_call_unfixed_statement.
 Proof. exact can_call_unfixed_refuted. Qed.
 Print Assumptions C16_can_call_unfixed_refuted.
 
+(* ---- the stored form (what a restarted node rebuilds its permissions from) ---- *)
+Theorem C16_perm_stored_roundtrip : forall p, perm_from_item (perm_to_item p) = Some p.
+Proof. exact perm_roundtrip. Qed.
+Print Assumptions C16_perm_stored_roundtrip.
+
+Theorem C16_perms_stored_roundtrip : forall ps, perms_from_item (perms_to_item ps) = Some ps.
+Proof. exact perms_roundtrip. Qed.
+Print Assumptions C16_perms_stored_roundtrip.
+
+(* hence the permissions read back from the stored form allow exactly what the original ones allow *)
+Theorem C16_stored_allows_same : forall ps ps' c m,
+  perms_from_item (perms_to_item ps) = Some ps' -> can_call ps' c m = can_call ps c m.
+Proof. exact stored_allows_same. Qed.
+Print Assumptions C16_stored_allows_same.
+
+(* the stored form keeps wildcard methods apart from the empty list, the wildcard contract apart from a hash, and a
+   hash apart from a group; it is injective *)
+Theorem C16_stored_form_distinguishes :
+  methods_to_item MWild <> methods_to_item (MList []) /\
+  desc_to_item DWild <> desc_to_item (DHash 0) /\
+  (forall h g, desc_to_item (DHash h) <> desc_to_item (DGroup g)).
+Proof. exact stored_form_distinguishes. Qed.
+Print Assumptions C16_stored_form_distinguishes.
+
+Theorem C16_stored_form_injective : forall p q, perm_to_item p = perm_to_item q -> p = q.
+Proof. exact to_item_injective. Qed.
+Print Assumptions C16_stored_form_injective.
+
 (* ---- non-vacuity ---- *)
+Example C16_ex_stored :
+  perm_to_item (mk_perm (DGroup 7) (MList [])) = SStruct [SBytes 33 7; SArray []] /\
+  perm_to_item (mk_perm DWild MWild) = SStruct [SNull; SNull] /\
+  perm_from_item (SStruct [SBytes 20 3; SArray [SStr "a"%string]]) = Some (mk_perm (DHash 3) (MList ["a"%string])) /\
+  perm_from_item (SStruct [SBytes 21 3; SNull]) = None.
+Proof. vm_compute. auto. Qed.
+
 Example C16_ex_chain : chain_flags 15 [(7, false); (15, true); (15, false)] = 5 /\
                        has 5 WriteStates = false /\ has 5 AllowCall = true.
 Proof. vm_compute. auto. Qed.
